@@ -42,7 +42,7 @@ var kinds = map[string]string{
 	"panic":      "z := 0\n1 / z",
 	"overflow":   "func r(n) { return r(n + 1) }\nr(0)",
 	"cancel":     "s := 0\nfor i := range 6 { s += i }\ns",
-	"deff":       "k := 10\nfunc boom() { z := 0\n return 1 / z }\nfunc f(n) { c := func() { return n }\n if n == -2 { return [" + ones + "f(n)] }\n if n == -3 { return [boom()] }\n if n == -4 { import flaky\n return [flaky.before, flaky.after] }\n if n < 0 { [1][5] }\n t := k\n for i := range n { t += i }\n return t + c() * 100 }\n7",
+	"deff":       "k := 10\nfunc boom() { z := 0\n return 1 / z }\nfunc f(n) { c := func() { return n }\n if n == -2 { return [" + ones + "f(n)] }\n if n == -3 { return [7, 8, boom()] }\n if n == -4 { import flaky\n return [flaky.before, flaky.after] }\n if n < 0 { [1][5] }\n t := k\n for i := range n { t += i }\n return t + c() * 100 }\n7",
 	"callf":      "", // Call(f, 3) with f taken from the VM after the last deff
 	"callferr":   "", // Call(f) with a wrong argument count
 	"callfail":   "", // Call(f, -1): f fails with a runtime error after it has created a closure over its parameter
@@ -75,12 +75,13 @@ type history []string
 func (h history) String() string { return strings.Join(h, ",") }
 
 type result struct {
-	SP    int // operand stack depth change left behind by the invocation (successful ones)
-	FP    int // frame pointer change left behind by a Call (whether it succeeded or failed)
-	Val   string
-	Err   string
-	Class string
-	IsCtx bool
+	SP     int // operand stack depth change left behind by the invocation (successful ones)
+	CallSP int // the same for a Call that failed
+	FP     int // frame pointer change left behind by a Call (whether it succeeded or failed)
+	Val    string
+	Err    string
+	Class  string
+	IsCtx  bool
 }
 
 func (r result) String() string {
@@ -166,7 +167,11 @@ func invoke(m *vm.VirtualMachine, st *state, kind string, ctx context.Context, f
 	}
 	if err != nil {
 		cls, _ := rt.Classify(err.Error())
-		return result{Err: err.Error(), Class: cls, IsCtx: errors.Is(err, context.Canceled), FP: fpd}
+		r := result{Err: err.Error(), Class: cls, IsCtx: errors.Is(err, context.Canceled), FP: fpd}
+		if strings.HasPrefix(kind, "call") {
+			r.CallSP = m.VerifSP() - spBefore // a failed Call, too, leaves the stack as it found it
+		}
+		return r
 	}
 	sp := m.VerifSP() + 1 // RunCode: exactly the result on the stack
 	if kind == "callf" || kind == "callferr" || kind == "callfail" || kind == "callpanic" || kind == "callimport" || kind == "callover" {
@@ -192,7 +197,6 @@ func expected(codes map[string]*compiler.Code, env *rt.Env) map[string]result {
 	}
 	return out
 }
-
 
 type caseT struct {
 	H        history
@@ -306,6 +310,9 @@ func (c caseT) judge(x *dsched.Exec, st *state, exp map[string]result) (violatio
 		}
 		if got.Err == "" && want.Err == "" && got.SP != want.SP {
 			return fmt.Sprintf("invocation %d (%s) leaves %d values on the VM's stack; on a fresh VM it leaves %d", i, k, got.SP, want.SP), key
+		}
+		if got.CallSP != 0 {
+			return fmt.Sprintf("invocation %d (%s), a Call that fails, leaves %d more values on the VM's stack than it found (on a fresh VM %d): every such call uses up a slot for good", i, k, got.CallSP, want.CallSP), key
 		}
 		if got.FP != want.FP || got.FP != 0 {
 			return fmt.Sprintf("invocation %d (%s) moves the VM's frame pointer by %d (a call has to leave it where it found it; on a fresh VM the same call moves it by %d)", i, k, got.FP, want.FP), key
